@@ -461,7 +461,7 @@ PROPS["C17"] = {
 
 PROPS["C18"] = {
     "judge": judge_parsers,
-    "modules": ["Gmsm.Props.C18", "Gmsm.Props.C02", "Gmsm.Props.C17", "Gmsm.Props.C16", "Gmsm.Props.C16Codec", "Gmsm.Props.C14Codec", "Gmsm.Props.C17Idem", "Gmsm.Props.C15Codec", "Gmsm.Props.C09Names"],
+    "modules": ["Gmsm.Props.C18", "Gmsm.Props.C18Linear", "Gmsm.Props.C02", "Gmsm.Props.C17", "Gmsm.Props.C16", "Gmsm.Props.C16Codec", "Gmsm.Props.C14Codec", "Gmsm.Props.C17Idem", "Gmsm.Props.C15Codec", "Gmsm.Props.C09Names"],
     "theorems": [
         "Props.C09Names.decSAN_total",
         "Props.C09Names.sanLoop_fuel",
@@ -494,6 +494,7 @@ PROPS["C18"] = {
         "Props.C18.readTag_bounds", "Props.C18.readTag_fuel", "Props.C18.depth_bounded", "Props.C18.depth_bounded_items",
         "Props.C18.tooDeep_only_rejects", "Props.C18.ber2der_depth", "Props.C18.encodeCost_le", "Props.C18.ber2der_cost",
         "Props.C18.nested129_rejected", "Props.C18.nested128_accepted",
+        "Props.C18.span_all", "Props.C18.span_linear", "Props.C18.items_inside_parent", "Props.C18.ber2der_linear",
         "Props.C02.decrypt_rejects_short", "Props.C17.unpad_sound", "Props.C16.altered_ticket_never_resumes", "Props.C16Codec.unmarshal_total", "Props.C16Codec.no_trailing_bytes", "Props.C14Codec.decompress_eq_none_iff", "Props.C14Codec.decompress_sound", "Props.C14Codec.cipherMarshal_short", "Props.C17Idem.readObject_wf",
     ],
     "gen_items": [],
